@@ -28,6 +28,8 @@ CALL_ACTS = {
     "reset_generation": "AResetGeneration",
     "force_metadata_update": "AMetadataUpdate",
     "_coordinator_dead": "ACoordinatorDead",
+    "await_reset": "AAwaitReset",       # tp_state.await_reset(strategy): the position is given up, reset by policy
+    "_set_error": "ASetError",          # the error is buffered and raised by the next getone()/getmany()
     "_abortable_error": "AAbortable",   # the transaction moves to ABORTABLE_ERROR
     "done": "ADone",                 # batch.done(...): the records' futures resolve with metadata
     "failure": "AFail",              # batch.failure(exception=...): the records' futures fail
@@ -215,6 +217,8 @@ class DispatchTr:
         if isinstance(s, ast.Raise):
             return f"[{self.raise_act(s, env)}]"
         if isinstance(s, ast.Pass):
+            return self.block(rest, k, env)
+        if ast.get_source_segment(self.src, s) in getattr(self.u, "dispatch_ignore", ()):
             return self.block(rest, k, env)
         if isinstance(s, ast.If):
             atoms = getattr(self.u, "dispatch_atoms", {})
